@@ -329,6 +329,7 @@ def history_builders():
         "decoy-links-replaced": lambda topo, P, eng: c14.build_variant(topo, P, {"decoy": "links"}, eng),
         "decoy-attachments-replaced": lambda topo, P, eng: c14.build_variant(topo, P, {"decoy": "attach"}, eng),
         "reads-then-bulk-links": lambda topo, P, eng: c14.build_reads_then_bulk(topo, P, eng),
+        "turnrates-reassigned-after-step": lambda topo, P, eng: c14.build_turnrates_reassigned(topo, P, eng),
         # all links are called "seg", all origins and destinations "od", all nodes "n" (NumPy engines only: the CasADi
         # encodings of this module bind function arguments by name)
         "same-names": lambda topo, P, eng: T_.build(topo, P, rename=lambda s: {"L": "seg", "O": "od", "D": "od"}.get(s[0], "n")),
